@@ -286,12 +286,14 @@ def _disable_ambiguous_selectors(
     "pods.v1" and "pods.v1beta1.metrics.k8s.io" (but only if non-v1 resources
     cannot be filtered out completely; otherwise, implicitly prefer v1).
     """
+    ambiguous: set[references.Resource] = set()
     for selector in selectors:
         selected = selector.select(resources)
         if selector.is_specific and len(selected) > 1:
             logger.warning("Ambiguous resources will not be served (try specifying API groups):"
                            f" {selector} => {selected}")
-            resources.difference_update(selected)
+            ambiguous.update(selected)
+    resources.difference_update(ambiguous)
 
 
 def _disable_mismatched_selectors(
